@@ -52,6 +52,7 @@ type SigParam struct {
 	In       string // path | query | header | form | body
 	Required bool
 	Kinds    []string
+	Validate string // the validator text written for it ("" = none)
 }
 
 // SigExpect is the reference signature model of one scenario's operation.
@@ -145,7 +146,7 @@ func (b *sigBuilder) add(family string, ps []pSpec, r retSpec, feat map[string]s
 			kinds = append(kinds, sub(k))
 		}
 		in := map[string]string{"Path": "path", "Query": "query", "Header": "header", "FormField": "form", "Body": "body"}[p.loc]
-		exp.Params = append(exp.Params, SigParam{Name: wire, In: in, Required: !p.ptr || p.loc == "Path" || hasRequired(p.validate), Kinds: kinds})
+		exp.Params = append(exp.Params, SigParam{Name: wire, In: in, Required: !p.ptr || p.loc == "Path" || hasRequired(p.validate), Kinds: kinds, Validate: p.validate})
 	}
 	m := scen.Method{Name: "Op" + id, Verb: "POST", Route: scen.S(route), Params: params, Response: r.response, ErrResps: r.errResps, Style: b.n % 2, GroupParams: b.group}
 	if r.valKind != nil {
@@ -215,13 +216,13 @@ func Signature(tier string) (Family, map[string]SigExpect) {
 					vs := validators
 					if strings.HasPrefix(k.Name, "[]") {
 						// element rules: everything after `dive` concerns the elements, not the slice
-						vs = append(append([]string{}, validators...), "dive", "dive,min=2")
+						vs = append(append([]string{}, validators...), "dive", "dive,min=2", "minItems=2,maxItems=5")
 					}
 					for _, v := range vs {
 						if al == "wn" && v != "" && v != "required" && tier != "thorough" {
 							continue
 						}
-						if strings.Contains(v, "min") && !strings.HasPrefix(v, "dive") && (k.Name == "bool" || strings.HasPrefix(k.Name, "[]") || k.Name == "struct" || k.Name == "map") && tier != "thorough" {
+						if strings.Contains(v, "min") && !strings.HasPrefix(v, "dive") && !strings.HasPrefix(v, "minItems") && (k.Name == "bool" || strings.HasPrefix(k.Name, "[]") || k.Name == "struct" || k.Name == "map") && tier != "thorough" {
 							continue
 						}
 						b.add("sig-1param", []pSpec{{kind: k, loc: loc, ptr: ptr, alias: al, validate: v, name: "p"}}, plainRet,
